@@ -21,4 +21,11 @@ def cases(tier, seed=0):
             if Dx + Dy <= 3 or tier == "thorough":
                 semi = () if Dx + Dy <= 3 else ("Sx",)
                 out.append(make_case(PROP, "sety_ops", kind, Dx, Dy, 1, 1, N=2, semi=semi, timeout=600))
+    for kind in KINDS:
+        dd = (2, 2) if kind.startswith("identity") else (2, 1)
+        for var in (("viaL",), ("upd",)):
+            if kind == "nncontrol" and var == ("viaL",):
+                continue
+            out.append(make_case(PROP, "sety", kind, dd[0], dd[1], 1, 1, N=2, semi=var, timeout=600))
+            out.append(make_case(PROP, "sety", kind, 1, 1, 1 if kind == "nncontrol" else 2, 1, N=2, semi=var, timeout=600))
     return out
